@@ -222,6 +222,19 @@ impl<'a> Ctx<'a> {
                 if it.fields.len() != args.len() {
                     return unknown("constructor arity", whole);
                 }
+                // the argument for an Option<_> field is Some(..) or None; anything else is not an expression of that type
+                for (f, a) in it.fields.iter().zip(args.iter()) {
+                    if f.ty.replace(' ', "").starts_with("Option<") {
+                        let ok = match strip_ref(a) {
+                            Expr::Call(c) => matches!(&*c.func, Expr::Path(p) if p.path.segments.last().map(|s| s.ident == "Some").unwrap_or(false)),
+                            Expr::Path(p) => p.path.segments.last().map(|s| s.ident == "None").unwrap_or(false),
+                            _ => false,
+                        };
+                        if !ok {
+                            return unknown(&format!("optional component {} given a bare value", asn_name(&f.attrs, &f.name)), whole);
+                        }
+                    }
+                }
                 let fields: Vec<Value> = it.fields.iter().zip(args.iter()).map(|(f, a)| json!({"n": asn_name(&f.attrs, &f.name), "v": self.eval(a)})).collect();
                 json!({"k": "seq", "v": fields})
             }
